@@ -11,6 +11,9 @@ Require Import Htp.Proof.PWireRun Htp.Proof.PWirePres Htp.Proof.PWireGlue Htp.Pr
 Definition sg_th0 (g : cfg) (m u pr : bytes) : tx :=
   (sg_tx_line g wr_t1 (wr_ser_request_line m u pr)) <| t_request_progress := c_HTP_REQUEST_HEADERS |>.
 
+Lemma sg_fuel_8 (x : bytes) : exists f, rq_fuel (length x) = (8 + f)%nat.
+Proof. exists (16 * length x + 8)%nat. unfold rq_fuel. lia. Qed.
+
 Section Gen.
 Variable cb : cb_oracle.
 Variable g : cfg.
@@ -22,6 +25,7 @@ Hypothesis Hlim0 : (length (wr_ser_request_line m u pr) + 2 <= g_field_limit_har
 Variable bwt : bytes.                                               (* the header block on the wire, with the empty line *)
 Variable hlog : option bytes -> tx -> bytes -> bytes -> Prop.
 Variable fin : list (option tx) -> Prop.                            (* what the transaction list has to be at the end *)
+Variable ext : connp -> bytes -> Prop.                              (* further states between two calls (a body being read) *)
 
 Let line0 := wr_ser_request_line m u pr.
 Let th0 := sg_th0 g m u pr.
@@ -29,11 +33,15 @@ Let th0 := sg_th0 g m u pr.
 (* ---- the state between two calls, and what one call has to establish ---- *)
 Definition sg_between (c : connp) (rw : bytes) : Prop :=
   (exists p q, sg_mid c p None REQ_LINE None wr_t1 /\ p ++ q = line0 ++ [CR; LF] /\ q <> [] /\ rw = q ++ bwt) \/
-  (exists p hdr t, sg_mid c p hdr REQ_HEADERS (Some H_REQUEST_HEADER_DATA) t /\ hlog hdr t p rw).
+  (exists p hdr t, sg_mid c p hdr REQ_HEADERS (Some H_REQUEST_HEADER_DATA) t /\ hlog hdr t p rw) \/
+  ext c rw.
 Definition sg_post (cF : connp) (rw' : bytes) : Prop :=
   (rw' <> [] /\ sg_between cF rw') \/ (rw' = [] /\ fin (c_txs cF)).
 
 Hypothesis Hstart : hlog None th0 [] bwt.
+Hypothesis Hext_finish : forall c rw, ext c rw -> ext (forget_chunks c <| c_events := [] |>) rw.
+Hypothesis Hext_step : forall c (rw x rw' : bytes), ext c rw -> x <> [] -> rw = x ++ rw' ->
+  exists c' rc, connp_req_data cb g (Some x) (length x) c = (c', rc) /\ sg_post c' rw'.
 Hypothesis Hcall : forall c d rd p hdr t rw' f,
   sg_cin c d rd p hdr REQ_HEADERS (Some REQ_HEADERS) (Some H_REQUEST_HEADER_DATA) t -> hlog hdr t p (skipn rd d ++ rw') ->
   exists cF rc, rq_loop cb g (6 + f) false c = (cF, rc) /\ sg_post cF rw'.
@@ -80,19 +88,18 @@ Proof.
 Qed.
 
 (* ---- one call of htp_connp_req_data ---- *)
-Lemma sg_fuel_8 (x : bytes) : exists f, rq_fuel (length x) = (8 + f)%nat.
-Proof. exists (16 * length x + 8)%nat. unfold rq_fuel. lia. Qed.
 
 Lemma sg_step c (rw x rw' : bytes) : sg_between c rw -> x <> [] -> rw = x ++ rw' ->
   exists c' rc, connp_req_data cb g (Some x) (length x) c = (c', rc) /\ sg_post c' rw'.
 Proof.
-  intros [(p & q & Hm & Hpq & Hq & Erw)|(p & hdr & t & Hm & Hl)] Hne Ex.
+  intros [(p & q & Hm & Hpq & Hq & Erw)|[(p & hdr & t & Hm & Hl)|He]] Hne Ex.
   - destruct (sg_enter cb g c p None _ _ wr_t1 x Hm Hne) as (c1 & E1 & H1). unfold bytes in *. rewrite E1.
     destruct (sg_fuel_8 x) as (f & Ef). rewrite Ef.
     apply (sg_call_line c1 x p q rw' f H1 Hpq Hq). rewrite <- Ex. exact Erw.
   - destruct (sg_enter cb g c p hdr _ _ t x Hm Hne) as (c1 & E1 & H1). unfold bytes in *. rewrite E1.
     destruct (sg_fuel_8 x) as (f & Ef). rewrite Ef. change (8 + f)%nat with (6 + (2 + f))%nat.
     apply (Hcall c1 x 0 p hdr t rw' _ H1). cbn [skipn]. rewrite <- Ex. exact Hl.
+  - apply (Hext_step c rw x rw' He Hne Ex).
 Qed.
 
 (* the first call: the parser as htp_connp_open leaves it *)
@@ -137,9 +144,10 @@ Proof.
 Qed.
 Lemma sg_between_finish c rw : sg_between c rw -> sg_between (forget_chunks c <| c_events := [] |>) rw.
 Proof.
-  intros [(p & q & Hm & R)|(p & hdr & t & Hm & R)].
+  intros [(p & q & Hm & R)|[(p & hdr & t & Hm & R)|He]].
   - left. exists p, q. split; [apply sg_mid_finish; exact Hm|exact R].
-  - right. exists p, hdr, t. split; [apply sg_mid_finish; exact Hm|exact R].
+  - right. left. exists p, hdr, t. split; [apply sg_mid_finish; exact Hm|exact R].
+  - right. right. apply Hext_finish. exact He.
 Qed.
 
 Lemma sg_cp_run_cons c (x : bytes) ops :
